@@ -46,6 +46,10 @@ func schemaObjectInfoToParams(si schemaObjectInfo) []parameterInfo {
 
 func getSchemaAsSingleObjectInfo(s *jschema.JSchema) (schemaObjectInfo, Error) {
 	sd := dereferenceJSchema(s)
+	if len(sd) == 0 {
+		// e.g. a type that refers only to itself
+		return nil, newErr("schema does not dereference to any schema")
+	}
 	if len(sd) > 1 {
 		return nil, newErr("schema dereferences to multiple schemas (or-notation)")
 	} else {
